@@ -35,6 +35,45 @@ def _charge(x, c):
     return descriptors.py_charge(type(x.symmetry).__name__, c)
 
 
+def construct(op, objs, a):
+    """The constructors (C16).  objs[0] is a template array (blocks / indices / duals
+    are taken from it) or, for from_dense, a dense ndarray."""
+    import symmray as sr
+
+    sym = a["sym"]
+    klass, _ = descriptors.get_class(a["kind"], a["cls"], sym)
+    kw = {}
+    if a.get("sym_given"):
+        kw["symmetry"] = sym if a.get("sym_as", "str") == "str" else sr.get_symmetry(sym)
+    if a.get("charge_given"):
+        kw["charge"] = descriptors.py_charge(sym, a["charge"])
+    if a["kind"] == "fermionic" and "oddpos" in a:
+        kw["oddpos"] = a["oddpos"]
+    if op == "from_dense":
+        d = objs[0]
+        index_maps = [[descriptors.py_charge(sym, c) for c in lab] for lab in a["labels"]]
+        if a.get("maps_as") == "dict":
+            index_maps = [dict(enumerate(m)) for m in index_maps]
+        return klass.from_dense(d, index_maps, tuple(a["duals"]), **kw)
+    t = objs[0]
+    if op == "from_blocks":
+        return klass.from_blocks(dict(t.blocks), t.duals, **kw)
+    if op == "construct":
+        if a.get("with_blocks", True):
+            kw["blocks"] = dict(t.blocks)
+        return klass(indices=t.indices, **kw)
+    if op == "from_fill_fn":
+        it = iter(list(t.blocks.values()))
+
+        def fill(shape):
+            blk = next(it)
+            assert tuple(blk.shape) == tuple(shape)
+            return blk
+
+        return klass.from_fill_fn(fill, t.indices, **kw)
+    raise ValueError(op)
+
+
 def call(op, objs, args, entry="method"):
     """Perform one public operation.  Returns a tuple of results."""
     import autoray as ar
@@ -54,6 +93,8 @@ def call(op, objs, args, entry="method"):
             return ar.do(name, x, *rest, **kw)
         raise ValueError(entry)
 
+    if op in ("from_blocks", "construct", "from_fill_fn", "from_dense"):
+        return (construct(op, objs, a),)
     if op == "copy":
         return (x.copy(),)
     if op == "transpose":
